@@ -26,7 +26,7 @@ Definition sf_of_bits (b : Z) : sf :=
 Definition bits_of_sf (f : sf) : Z :=
   let sb (s : bool) := if s then Z.shiftl 1 63 else 0 in
   match f with
-  | S754_zero s => sb s
+  | S754_zero s => 0          (* -0.0 is reported as 0.0: results are compared as numbers *)
   | S754_infinity s => sb s + Z.shiftl 2047 52
   | S754_nan => Z.shiftl 2047 52 + Z.shiftl 1 51
   | S754_finite s m e =>
@@ -72,6 +72,7 @@ Definition val_of_sx (x : sx) : option val :=
       if is_tag "u" t then Some VUndef else
       if is_tag "str" t then option_map VStr (sx_get_zs rest) else
       if is_tag "obj" t then Some VObj else
+      if is_tag "hi" t then Some VHi else
       if is_tag "other" t then Some VOther else None
   | _ => None
   end.
@@ -124,6 +125,7 @@ Definition sx_val (v : val) : sx :=
   | VUndef => SL [sx_w "u"; SZ 1]
   | VStr s => SL (sx_w "s" :: map SZ s)
   | VObj => SL [sx_w "obj"]
+  | VHi => SL [sx_w "hi"]
   | VOther => SL [sx_w "other"]
   end.
 Definition np_flag (v : val) : Z := match v with VS true _ => 1 | _ => 0 end.
